@@ -1,10 +1,14 @@
 package zzsim
 
-import "reflect"
+import (
+	"reflect"
+	"runtime"
+)
 
 const maxClosed = 256
 
 var closedSet [maxClosed]uintptr
+var closedKeep [maxClosed]interface{} // keeps closed channels reachable: their addresses must not be reused
 var nClosed int
 
 //go:norace
@@ -25,18 +29,19 @@ func markClosed(p uintptr) {
 	}
 }
 
-// WaitRecv yields until a receive on the buffered channel ch cannot block. The
-// real receive that follows then never blocks while the run token is held, and
-// its real happens-before edge stays visible to the race detector.
+// WaitRecv yields until a receive on the channel ch cannot block. The real
+// receive that follows then never blocks while the run token is held, and its
+// real happens-before edge stays visible to the race detector. For an
+// unbuffered channel see rendezvous.
 func WaitRecv(ch interface{}) {
 	if !Active() {
 		return
 	}
 	v := reflect.ValueOf(ch)
 	p := v.Pointer()
-	if p != 0 && v.Cap() == 0 && !isClosed(p) {
-		Unsupported = "receive on unbuffered channel"
-		panic("zzsim: unbuffered channel not supported")
+	if p != 0 && v.Cap() == 0 {
+		rendezvous(p, false)
+		return
 	}
 	for v.Len() == 0 && !isClosed(p) {
 		Blocked()
@@ -44,24 +49,143 @@ func WaitRecv(ch interface{}) {
 	Progress()
 }
 
-// WaitSend yields until a send on the buffered channel ch cannot block.
+// WaitSend yields until a send on the channel ch cannot block.
 func WaitSend(ch interface{}) {
 	if !Active() {
 		return
 	}
 	v := reflect.ValueOf(ch)
-	if v.Cap() == 0 {
-		Unsupported = "send on unbuffered channel"
-		panic("zzsim: unbuffered channel not supported")
+	if p := v.Pointer(); p != 0 && v.Cap() == 0 {
+		rendezvous(p, true)
+		return
 	}
-	for v.Len() == v.Cap() {
+	for v.Len() == v.Cap() && !isClosed(v.Pointer()) {
 		Blocked()
 	}
 	Progress()
 }
 
+// ---- unbuffered channels
+//
+// A send and a receive on an unbuffered channel complete together, so for the
+// length of ONE statement two tasks must run. The task that arrives first
+// registers itself as pending and parks. The task that arrives second (the
+// initiator) keeps the run token, wakes the pending peer for exactly its channel
+// statement and goes on to execute its own; the two real operations meet in the
+// Go runtime (with their real happens-before edge). The instrumenter puts
+// AfterChanOp behind every such statement: there the peer parks again as an
+// ordinary runnable task, and the initiator waits until it has. Nothing but the
+// peer's channel statement ever runs without the token, which task is matched
+// is first-come first-served, and no scheduling decision is involved, so runs
+// stay deterministic.
+
+const maxPend = 128
+
+type pendOp struct {
+	ch   uintptr
+	task int
+	send bool
+}
+
+var (
+	pends       [maxPend]pendOp
+	nPend       int
+	rdvActive   bool // a woken peer has not parked again yet
+	rdvPeer     int
+	rdvPeerSend bool
+	Rendezvous  int64
+)
+
+//go:norace
+func findPend(p uintptr, send bool) int {
+	for i := 0; i < nPend; i++ {
+		if pends[i].ch == p && pends[i].send == send {
+			return i
+		}
+	}
+	return -1
+}
+
+//go:norace
+func removePend(i int) {
+	for ; i+1 < nPend; i++ {
+		pends[i] = pends[i+1]
+	}
+	nPend--
+}
+
+//go:norace
+func removeMyPend(p uintptr, me int, send bool) {
+	for i := 0; i < nPend; i++ {
+		if pends[i].ch == p && pends[i].task == me && pends[i].send == send {
+			removePend(i)
+			return
+		}
+	}
+}
+
+//go:norace
+func rendezvous(p uintptr, send bool) {
+	me := cur
+	for {
+		if isClosed(p) {
+			// a receive returns at once, a send panics: both without blocking
+			Progress()
+			return
+		}
+		if i := findPend(p, !send); i >= 0 {
+			peer := pends[i].task
+			removePend(i)
+			tasks[peer].rdv = 1
+			tasks[peer].state = stRunnable
+			rdvActive, rdvPeer, rdvPeerSend = true, peer, !send
+			Rendezvous++
+			syncEpoch++
+			tasks[me].state = stRunnable
+			wakeTask(peer) // the peer runs its channel statement, without the token
+			return         // and this task runs its own, with it
+		}
+		if nPend >= maxPend {
+			Unsupported = "too many tasks pending on unbuffered channels"
+			panic("zzsim: pending table full")
+		}
+		pends[nPend] = pendOp{p, me, send}
+		nPend++
+		Blocked()
+		if tasks[me].rdv == 1 {
+			return // matched: execute the statement now, AfterChanOp parks this task again
+		}
+		removeMyPend(p, me, send)
+	}
+}
+
+// AfterChanOp follows every statement-level send and receive in instrumented
+// code (isSend says which it was).
+//
+//go:norace
+func AfterChanOp(isSend bool) {
+	if !active || !rdvActive {
+		return
+	}
+	if isSend == rdvPeerSend {
+		// the woken peer: back to being an ordinary parked, runnable task
+		me := rdvPeer
+		tasks[me].rdv = 0
+		rdvActive = false
+		park(me)
+		return
+	}
+	// the initiator: wait until the peer has parked again
+	for rdvActive {
+		runtime.Gosched()
+	}
+}
+
 // Closed records that ch is about to be closed.
 func Closed(ch interface{}) {
+	if nClosed < maxClosed {
+		closedKeep[nClosed] = ch
+	}
 	markClosed(reflect.ValueOf(ch).Pointer())
 	Progress()
 }
